@@ -34,8 +34,11 @@ def gen_ops(rnd):
     ops = [["login"]]
     for _ in range(rnd.randint(1, 6)):
         x = rnd.random()
-        if x < 0.45:
+        if x < 0.35:
             ops.append(["pasv", rnd.choice(["PASV", "EPSV"])])
+        elif x < 0.45:
+            # pipelined: the next passive command arrives while the first listener is still being opened
+            ops.append(["burst", [rnd.choice(["PASV", "EPSV"]) for _ in range(rnd.randint(2, 3))]])
         elif x < 0.65:
             ops.append(["xfer"])
         elif x < 0.80:
@@ -169,6 +172,19 @@ def run_case(case):
                             if pool is not None and bindable and not inflight:
                                 # a free, bindable port was in the pool: exhaustion was answered wrongly
                                 viol.append({"clause": "421-with-free-port", "subject": op[1], "detail": f"421 although ports {bindable} were free in the pool"})
+                    elif op[0] == "burst":
+                        for v in op[1]:
+                            peer.note("C", v)
+                        peer.writer.write("".join(v + "\r\n" for v in op[1]).encode())
+                        info["bursts"] = info.get("bursts", 0) + 1
+                        for v in op[1]:
+                            code, lines = await peer.reply(100.0)
+                            if code in ("227", "229"):
+                                got_ports.append((world.loop.steps, i, None))
+                            elif code == "421":
+                                info["saw_421"] = info.get("saw_421", 0) + 1
+                                raise PeerGone()
+                        peer.passive_port = None
                     elif op[0] == "xfer":
                         if peer.passive_port is not None:
                             r = await peer.download("RETR /f", passive=None, connect="before", data_timeout=50.0)
@@ -320,6 +336,7 @@ def run_case(case):
                 "probe.exhaustion_421": info.get("saw_421", 0),
                 "probe.port_retry_after_eaddrinuse": int(any(b[2] == errno.EADDRINUSE for b in binds) and len(got_ports) > 0),
                 "probe.pasv_and_close": info.get("pasv_close", 0),
+                "probe.pipelined_passive_commands": info.get("bursts", 0),
                 "passive_ports_granted": len(got_ports),
             },
             "violations": out,
